@@ -31,6 +31,9 @@ type runner struct {
 	derive bool     // append dec requests derived from successful enc requests (off when replaying)
 	extra  []string // derived requests waiting to be executed
 	kinds  map[string]bool
+	// the destination of the previous successful JSONDecode of the current schema (oracle reused-destination)
+	reuse    reflect.Value
+	reuseTop *S
 }
 
 func (x *runner) opts(v string) []serix.Option {
@@ -376,6 +379,30 @@ func (x *runner) oracle(flag string, v *V, js []byte, vreason string) {
 				map[string]string{"oracle": "mapdecode-vs-jsondecode", "outcome": "value-differs"})
 		default:
 			x.r.Count("mapdecode=jsondecode")
+		}
+	}
+	// a reused destination: the same document decoded into the destination that still holds the previous value of this
+	// schema (stale slice elements, map entries, optional pointers) must give the value the document describes
+	if outcome == "" {
+		if x.reuse.IsValid() && x.reuseTop == top {
+			var err3 error
+			p3 := hx.Safely(func() { err3 = x.w.api.JSONDecode(context.Background(), js, x.reuse.Interface(), x.opts(flag)...) })
+			want := expect(top, v).Canon()
+			switch {
+			case p3 != "" || err3 != nil:
+				x.r.Fail("reused-destination", fmt.Sprintf("schema %s json %s: JSONDecode into a fresh destination succeeds, into the destination of the previous decode: panic=%q err=%v", top, js, p3, err3),
+					map[string]string{"oracle": "reused-destination", "outcome": "outcome-differs"})
+				x.reuse = reflect.Value{}
+			case read(top, x.reuse.Elem()).Canon() != want:
+				x.r.Fail("reused-destination", fmt.Sprintf("schema %s json %s: decoded into the destination of the previous decode gives %s, documented result %s", top, js,
+					read(top, x.reuse.Elem()).Canon(), want),
+					map[string]string{"oracle": "reused-destination", "outcome": "value-differs"})
+				x.reuse = reflect.Value{}
+			default:
+				x.r.Count("reused-destination:ok")
+			}
+		} else {
+			x.reuse, x.reuseTop = dest, top
 		}
 	}
 	sreason := top.inexpressible()
